@@ -17,6 +17,12 @@
    * Domain: the RESULT satisfies 8 C < 475 K ([dom]); folding can only raise C/K, so every intermediate union is
      then in the domain too (dom_fold_back).  Folding several dense sketches onto few rows can leave the domain:
      the crate then builds a sketch with window offset > 56 (outside the property, as in C05).
+     Table capacity (as in C05: PairTable holds at most 3/4 * 2^min(26, lg_k + 5) pairs and asserts beyond):
+     [usteps_fit]: the two table walks an update can contain - reduce_k re-inserting a non-empty sparse accumulator,
+     case A merging a sparse source into the sparse accumulator - never outgrow the accumulator's table, in
+     whatever order the pairs are visited ([fits_any]; nothing is asked once the union holds a bit matrix);
+     [result_fits]: the surprising values of a dense result fit the table to_sketch builds.  Real (hashed) data is
+     far from these limits; crafted inputs can reach them, and the crate then panics (model: Stuck).
    * Not verified (trusted, see tools/props/C06.py): PairTable's slot layout, hence the order in which
      walk_table_updating_sketch visits the source pairs (the theorems hold for EVERY order: the source table is an
      arbitrary duplicate-free list).  merge is on one seed. *)
@@ -31,10 +37,11 @@ Open Scope N_scope.
    Spec; to_sketch() yields a sketch s that is again a valid sketch (Vin) of exactly the Spec matrix:
    build_bit_matrix s = the Spec rows, num_coupons = its popcount, offset = determine_correct_offset <= 56,
    window present iff flavor > Sparse, first interesting column sound, validate() = true, and s is marked as
-   merged unless it is empty. *)
+   merged (also when it is empty: repaired, known_findings.d/c06-cpc-empty-union-not-merged.json). *)
 Theorem c06_cpc_union_refines : forall lg0 l,
   4 <= lg0 <= 26 -> Forall (fun x => Vin (fst (fst x)) (snd (fst x)) (snd x)) l ->
   dom (uspec lg0 (ins_of l)) ->
+  usteps_fit (lg0, mzero) (ins_of l) -> result_fits (fst (uspec lg0 (ins_of l))) (snd (uspec lg0 (ins_of l))) ->
   exists u, union_of lg0 (map (fun x => fst (fst x)) l) = Ok u /\
     u_lgk u = fst (uspec lg0 (ins_of l)) /\
     union_num_coupons u = pop_rows (snd (uspec lg0 (ins_of l))) (Knat (fst (uspec lg0 (ins_of l)))) /\
@@ -48,7 +55,7 @@ Theorem c06_cpc_union_refines : forall lg0 l,
       (c_win s = [] <-> cpc_flavor s <= SPARSE) /\
       fic_ok (fst (uspec lg0 (ins_of l))) s (snd (uspec lg0 (ins_of l))) /\
       cpc_validate s = Ok true /\
-      (c_num s <> 0 -> c_merge s = true).
+      c_merge s = true.
 Proof. exact cpc_union_refines. Qed.
 
 (* the step-by-step Spec is the closed form of the property text: smallest lg_k among the union and the
@@ -63,20 +70,25 @@ Theorem c06_union_update_refines : forall u lg M si lgi Mi,
   Urep u lg M -> Vin si lgi Mi ->
   8 * pop_rows (snd (uspec_step (lg, M) (lgi, Mi))) (Knat (fst (uspec_step (lg, M) (lgi, Mi)))) <
     475 * 2 ^ fst (uspec_step (lg, M) (lgi, Mi)) ->
+  ustep_fits lg M lgi Mi ->
   exists u', union_update u si = Ok u' /\
              Urep u' (fst (uspec_step (lg, M) (lgi, Mi))) (snd (uspec_step (lg, M) (lgi, Mi))).
 Proof. exact union_update_ok. Qed.
 
 (* to_sketch of any represented union state: the result is a valid sketch of the same matrix *)
 Theorem c06_cpc_union_result_wf : forall u lg M, Urep u lg M -> 8 * pop_rows M (Knat lg) < 475 * 2 ^ lg ->
-  exists s, union_to_sketch u = Ok s /\ Inv lg s M /\ (c_num s <> 0 -> c_merge s = true).
+  result_fits lg M ->
+  exists s, union_to_sketch u = Ok s /\ Inv lg s M /\ c_merge s = true.
 Proof. exact union_to_sketch_ok. Qed.
 
-(* "marked as merged" does NOT hold for the result of a union that saw no coupons: to_sketch returns a fresh
-   CpcSketch (merge_flag false, HIP registers of an empty sketch); full statement: forall results, c_merge s = true *)
-Theorem c06_empty_result_merged_refuted :
-  exists u s, union_of 11 [] = Ok u /\ union_to_sketch u = Ok s /\ c_num s = 0 /\ c_merge s = false.
-Proof. exact union_empty_result_not_merged. Qed.
+(* a union result stays a valid sketch under further updates (C05's run_inv for any valid starting sketch): every
+   further stream of valid pairs inside the domain and the table capacity is absorbed without panic, and the
+   sketch then represents the OR-ed matrix plus the new pairs *)
+Theorem c06_union_result_updatable : forall s lg M cs,
+  Vin s lg M -> Forall (valid lg) cs ->
+  8 * pop_rows (fold_left spec_update cs M) (Knat lg) < 475 * 2 ^ lg -> fits_stream lg M cs ->
+  exists s', run_from s cs = Ok s' /\ Vin s' lg (fold_left spec_update cs M).
+Proof. exact union_result_updatable. Qed.
 
 (* a union in the BitMatrix state always holds at least 3K/32 coupons (the code relies on it silently:
    to_sketch always builds a window) *)
@@ -89,6 +101,8 @@ Proof. exact union_bitmatrix_not_sparse. Qed.
 Theorem c06_cpc_union_order_irrelevant : forall lg0 l l',
   4 <= lg0 <= 26 -> Forall (fun x => Vin (fst (fst x)) (snd (fst x)) (snd x)) l -> Permutation l l' ->
   dom (uspec lg0 (ins_of l)) ->
+  usteps_fit (lg0, mzero) (ins_of l) -> usteps_fit (lg0, mzero) (ins_of l') ->
+  result_fits (fst (uspec lg0 (ins_of l))) (snd (uspec lg0 (ins_of l))) ->
   exists u u' s s',
     union_of lg0 (map (fun x => fst (fst x)) l) = Ok u /\ union_of lg0 (map (fun x => fst (fst x)) l') = Ok u' /\
     union_to_sketch u = Ok s /\ union_to_sketch u' = Ok s' /\
@@ -101,6 +115,8 @@ Proof. exact cpc_union_order_irrelevant. Qed.
 Theorem c06_cpc_union_repetition_irrelevant : forall lg0 l x,
   4 <= lg0 <= 26 -> Forall (fun x => Vin (fst (fst x)) (snd (fst x)) (snd x)) l -> In x l ->
   dom (uspec lg0 (ins_of l)) ->
+  usteps_fit (lg0, mzero) (ins_of l) -> usteps_fit (lg0, mzero) (ins_of (l ++ [x])) ->
+  result_fits (fst (uspec lg0 (ins_of l))) (snd (uspec lg0 (ins_of l))) ->
   exists u u' s s',
     union_of lg0 (map (fun x => fst (fst x)) l) = Ok u /\ union_of lg0 (map (fun x => fst (fst x)) (l ++ [x])) = Ok u' /\
     union_to_sketch u = Ok s /\ union_to_sketch u' = Ok s' /\
@@ -135,7 +151,7 @@ Proof. exact pop_fold'. Qed.
 
 (* every sketch reachable by updates (C05) is a valid union input *)
 Theorem c06_reachable_sketches_are_valid_inputs : forall lgk cs s,
-  4 <= lgk <= 26 -> Forall (valid lgk) cs -> 8 * distinct cs < 475 * 2 ^ lgk ->
+  4 <= lgk <= 26 -> Forall (valid lgk) cs -> 8 * distinct cs < 475 * 2 ^ lgk -> cpc_fits lgk cs ->
   cpc_run lgk cs = Ok s -> Vin s lgk (spec cs).
 Proof. exact cpc_run_vin. Qed.
 
@@ -155,6 +171,7 @@ Example c06_example :
     let l := [(s1, 5, spec c06_ex_s1); (s2, 4, spec []); (s3, 5, spec c06_ex_s3)] in
     Forall (fun x => Vin (fst (fst x)) (snd (fst x)) (snd x)) l /\
     dom (uspec 6 (ins_of l)) /\ fst (uspec 6 (ins_of l)) = 5 /\
+    usteps_fit (6, mzero) (ins_of l) /\ result_fits (fst (uspec 6 (ins_of l))) (snd (uspec 6 (ins_of l))) /\
     exists u s, union_of 6 [s1; s2; s3] = Ok u /\ union_num_coupons u = 23 /\
                 (exists m, u_st u = UMat m) /\
                 union_to_sketch u = Ok s /\ c_num s = 23 /\ c_merge s = true /\
@@ -163,12 +180,25 @@ Proof.
   eexists. eexists. eexists. split; [vm_compute; reflexivity|]. split; [vm_compute; reflexivity|]. split; [vm_compute; reflexivity|].
   split.
   { constructor; [|constructor; [|constructor; [|constructor]]]; cbn [fst snd].
-    - apply cpc_run_vin; [lia| |vm_compute; reflexivity|vm_compute; reflexivity].
+    - apply cpc_run_vin; [lia| |vm_compute; reflexivity|apply fits_streamb_sound; vm_compute; reflexivity|vm_compute; reflexivity].
       unfold valid. repeat constructor; vm_compute; congruence.
-    - apply cpc_run_vin; [lia|constructor|vm_compute; reflexivity|vm_compute; reflexivity].
-    - apply cpc_run_vin; [lia| |vm_compute; reflexivity|vm_compute; reflexivity].
+    - apply cpc_run_vin; [lia|constructor|vm_compute; reflexivity|exact I|vm_compute; reflexivity].
+    - apply cpc_run_vin; [lia| |vm_compute; reflexivity|apply fits_streamb_sound; vm_compute; reflexivity|vm_compute; reflexivity].
       unfold valid. repeat constructor; vm_compute; congruence. }
   split; [vm_compute; reflexivity|]. split; [vm_compute; reflexivity|].
+  split.
+  { (* the only table walk is reduce_k of the still empty accumulator; afterwards the union holds a bit matrix *)
+    cbn [usteps_fit ins_of map fst snd]. split; [|split; [|split; [|exact I]]].
+    - split.
+      + intros _ _. apply fits_any_nil. intros r c _. rewrite mfold_zero. apply N.bits_0.
+      + intros H. exfalso. vm_compute in H. discriminate.
+    - split.
+      + intros _ H. exfalso. vm_compute in H. discriminate.
+      + intros _ H. exfalso. vm_compute in H. discriminate.
+    - split.
+      + intros H. exfalso. vm_compute in H. discriminate.
+      + intros _ H. exfalso. vm_compute in H. discriminate. }
+  split; [intros _; vm_compute; reflexivity|].
   eexists. eexists. split; [vm_compute; reflexivity|]. split; [vm_compute; reflexivity|].
   split; [eexists; vm_compute; reflexivity|]. split; [vm_compute; reflexivity|].
   split; [vm_compute; reflexivity|]. split; [vm_compute; reflexivity|]. vm_compute. reflexivity.
